@@ -417,6 +417,73 @@ def run(ctx):
             ctx.cov["refine_cases_outside_model(corrupt)"] = ncorrupt
         tm["model-refine"] = time.time() - t0
 
+        # ------------- DC first / AC first / DC refine units: model vs the real static functions of jdphuff.c
+        t0 = time.time()
+        pexe = ctx.cc("c09_prog", ["c09_prog.c"], "plain", libs=("jpeg",))
+        pr = core.SplitMix64(ctx.seed * 9973 + 1)
+
+        def ptable(syms):
+            lens = [0]
+            while len(lens) < len(syms) + 1:
+                i = pr.below(len(lens))
+                if lens[i] >= 15:
+                    continue
+                l = lens.pop(i)
+                lens += [l + 1, l + 1]
+            lens = sorted(lens)[:-1]
+            return [lens.count(l) for l in range(1, 17)], pr.shuffle(syms)
+        plines = []
+        for t in range(ctx.n(45, 450)):
+            kind = 1 + t % 3
+            al = pr.choice([0, 1, 2]); nm = pr.range(1, 8); bpm = pr.range(1, 4) if kind != 2 else 1
+            ss, se = (0, 0) if kind != 2 else (pr.choice([1, 1, 6]), pr.choice([63, 5, 20]))
+            se = max(ss, se)
+            eob = pr.choice([0, 0, 1, 2]) if kind == 2 else 0
+            if kind == 1:
+                bits, vals = ptable(list(range(0, 12)))
+            elif kind == 2:
+                bits, vals = ptable([(r_ << 4) | s_ for r_ in range(16) for s_ in range(0, 8)][:60])
+            else:
+                bits, vals = ptable(list(range(0, 4)))
+            init = [(pr.range(0, 400) - 200) << (al + 1) for _ in range(nm * bpm)] if kind == 3 else []
+            data = bytearray()
+            for _ in range(pr.range(2, 80)):
+                x = pr.below(256)
+                data.append(x)
+                if x == 255:
+                    data.append(0)
+            data += b"\xff\xd9"
+            head = "q %d %d %d %d %d %d %d | %s | %s | %s | %s" % (kind, ss, se, al, eob, nm, bpm, " ".join(map(str, bits)),
+                                                                " ".join(map(str, vals)), " ".join(map(str, init)), data.hex())
+            for pt in ("", "1 " * len(data), " ".join(str(pr.range(0, 9)) for _ in range(40)), "%d" % pr.range(1, len(data))):
+                plines.append(head + " | " + pt)
+        inp = ("\n".join(plines) + "\n").encode()
+        rc1, o1, e1 = sh2([pexe], input=inp, timeout=600)
+        rc2, o2, e2 = sh2([drv], input=inp, timeout=600)
+        a, b = o1.decode().split("\n"), o2.decode().split("\n")
+        if rc1 != 0 or len(a) < len(plines):
+            ctx.violation("jdphuff.c unit harness crashed (rc=%d): %s" % (rc1, e1[-200:]),
+                          {"kind": "prog", "case": plines[min(len(a), len(plines)) - 1]}, signature="crash:prog-unit")
+        elif rc2 != 0 or len(b) < len(plines):
+            ctx.broken_tie("model-driver", "extracted progressive-unit model failed: rc=%d %s" % (rc2, e2[-200:]))
+        else:
+            for i, ln in enumerate(plines):
+                whole = a[i - (i % 4)]
+                kindname = {"1": "DC_first", "2": "AC_first", "3": "DC_refine"}[ln.split()[1]]
+                if a[i] != whole:
+                    ctx.violation("decode_mcu_%s: result depends on the chunking of its input: %s" % (kindname, a[i][:80]),
+                                  {"kind": "prog", "case": ln, "whole": whole, "got": a[i]}, signature="prog-chunking:" + kindname)
+                total_sched += 1
+                corr += 1
+                if a[i] != b[i]:
+                    disagree += 1
+                    if disagree <= 3:
+                        ctx.log("prog unit model/impl disagree", ln[:50], a[i][:90], b[i][:90])
+                        ctx.broken_tie("correspondence:" + kindname, "model unit and decode_mcu_%s differ: %s || %s || %s" % (
+                            kindname, ln[:200], a[i][:150], b[i][:150]))
+                ctx.count("model-" + kindname, 1, (kindname, a[i][:120], i % 4))
+        tm["model-prog"] = time.time() - t0
+
     # ---------------------------------------------------------------- encoder
     erng = core.SplitMix64(ctx.seed * 77 + 5)
     ecmds = []
@@ -498,6 +565,12 @@ def run(ctx):
 def report(ctx, s, fl, kind, cmd, ref, got, refcmd):
     names = diff_names(ref, got)
     mode = "std" if cmd.split()[2] == "0" else "bufimage"
+    if " err=22 " in got and " ok=1 " in ref and mode == "bufimage":
+        ctx.violation("buffered-image mode: an output pass started before all scans of a lossless multi-scan file have begun "
+                      "fails with JERR_BAD_VIRTUAL_ACCESS (%s, %s build): %s" % (kind, fl, cmd[:70]),
+                      {"kind": "dec", "hex": s["hex"], "origin": s["origin"], "cmd": cmd, "refcmd": refcmd, "flavour": fl,
+                       "reference": ref, "got": got}, signature="bufimage-early-pass:BAD_VIRTUAL_ACCESS:lossless-multiscan")
+        return
     if " ok=2 err=-88 " in got:
         ctx.violation("buffered-image display loop: a complete pass on input_scan_number started inside the last scan ended with the "
                       "input complete but its pixels differ from the final image (%s, %s build): %s" % (kind, fl, cmd[:70]),
@@ -530,6 +603,15 @@ def replay(ctx, exes, drv):
         if rc != 0 or len(ls) < 2 or ls[0] != ls[1]:
             ctx.violation("decode_mcu_AC_refine: result depends on the chunking of its input", r, signature=r.get("signature"))
         ctx.log("replay:", ls[0][:100], "||", ls[1][:100])
+        return
+    if r.get("kind") == "prog":
+        pexe = ctx.cc("c09_prog", ["c09_prog.c"], "plain", libs=("jpeg",))
+        whole = " | ".join(r["case"].split(" | ")[:5]) + " | "
+        rc, out, err = sh2([pexe], input=(whole + "\n" + r["case"] + "\n").encode(), timeout=60)
+        ls = out.decode().split("\n")
+        ctx.count("replay-prog", 1, tuple(ls[:2]))
+        if rc != 0 or len(ls) < 2 or ls[0] != ls[1]:
+            ctx.violation("jdphuff.c MCU decoder: result depends on the chunking of its input", r, signature=r.get("signature"))
         return
     if r.get("kind") == "memdst":
         rc, res, err = Runner(ctx, exe, fl).run([r["cmd"]])
